@@ -303,11 +303,41 @@ pub struct GenStream<K> {
     armed: bool,
 }
 
+/// number of distinct failures `make_error` can build
+const N_ERROR_KINDS: u64 = 24;
+
+/// The failures an input stream can report: the variants the record parsers and upstream
+/// protocol steps produce (I/O errors of every common kind - a body that breaks mid-upload is
+/// reported as `UnexpectedEof` -, parse and length errors, validation failures, ...). The
+/// property is about *any* error, so the generator spreads over all of them.
 fn make_error(kind: u8) -> Error {
-    match kind % 3 {
+    use std::io::{Error as IoError, ErrorKind as K};
+    let io = |k: K| Error::Io(IoError::new(k, "generated input failure"));
+    match u64::from(kind) % N_ERROR_KINDS {
         0 => Error::InconsistentShares,
         1 => Error::ZeroRecords,
-        _ => Error::Unsupported("generated input failure".into()),
+        2 => Error::Unsupported("generated input failure".into()),
+        3 => io(K::UnexpectedEof),
+        4 => io(K::InvalidData),
+        5 => io(K::WriteZero),
+        6 => io(K::ConnectionReset),
+        7 => io(K::BrokenPipe),
+        8 => io(K::TimedOut),
+        9 => io(K::Interrupted),
+        10 => io(K::WouldBlock),
+        11 => io(K::Other),
+        12 => io(K::ConnectionAborted),
+        13 => Error::ParseError("generated input failure".into()),
+        14 => Error::InvalidQueryParameter("generated input failure".into()),
+        15 => Error::FieldValueTruncation("generated input failure".into()),
+        16 => Error::DZKPValidationFailed,
+        17 => Error::ParallelDZKPValidationFailed,
+        18 => Error::MaliciousSecurityCheckFailed,
+        19 => Error::RecordIdOutOfRange { record_id: crate::protocol::RecordId::from(0u32), total_records: 0 },
+        20 => Error::Internal,
+        21 => Error::ShuffleValidationFailed("generated input failure".into()),
+        22 => Error::DuplicateBytes(1),
+        _ => Error::Io(IoError::from(K::UnexpectedEof)),
     }
 }
 
@@ -1036,7 +1066,7 @@ fn gen_spec(env: &Env, src: &mut Src<'_>, flavor: Flavor) -> (Spec, Vec<String>)
                 1 => counts[shard],
                 _ => src.urange(0, counts[shard]),
             };
-            stream_err.push(StreamErr { helper, shard, pos, kind: src.below(3) as u8 });
+            stream_err.push(StreamErr { helper, shard, pos, kind: src.below(N_ERROR_KINDS) as u8 });
         }
     }
     let mut hint_extra = hint_extra;
@@ -1138,6 +1168,11 @@ pub fn stream_errors(env: &Env, src: &mut Src<'_>) -> CaseResult {
     let cj = spec.json();
     for e in &spec.stream_err {
         labels.push(format!("err-pos:{}", if e.pos == 0 { "first" } else if e.pos >= spec.counts[e.shard] { "after-last" } else { "middle" }));
+        let injected = make_error(e.kind);
+        labels.push(match &injected {
+            Error::Io(io) => format!("injected:Io:{:?}", io.kind()),
+            other => format!("injected:{}", error_variant(other)),
+        });
     }
     labels.push(format!("failing-streams:{}", spec.stream_err.len()));
     let run = run(&spec, &plains);
@@ -1263,7 +1298,7 @@ pub fn subs(_env: &Env) -> Vec<Sub> {
         ),
         Sub::random(
             "stream_errors", 700, 4000, 80_000, stream_errors,
-            "as reshard_order (reshard_try_stream and reshard_aad) with an Err item at a generated position (first, middle, after the last record) of the input stream of one or two helper-shards; oracle: that helper-shard returns Err (never Ok with fewer records); helpers without a failing stream return exactly the expected content on every shard; a sibling shard of a failed shard may wait forever, fail, or return Ok with all records of the healthy sources and a prefix of those the failed shard selected for it",
+            "as reshard_order (reshard_try_stream and reshard_aad) with an Err item - one of 24 failures: I/O errors of 10 kinds (UnexpectedEof as reported for a body that breaks mid-upload, InvalidData, WriteZero, ConnectionReset, ...), parse / parameter / truncation errors, validation failures, RecordIdOutOfRange, ... - at a generated position (first, middle, after the last record) of the input stream of one or two helper-shards; oracle: that helper-shard returns Err (never Ok with fewer records); helpers without a failing stream return exactly the expected content on every shard; a sibling shard of a failed shard may wait forever, fail, or return Ok with all records of the healthy sources and a prefix of those the failed shard selected for it",
         )
         .shrink_iters(60),
         Sub::random(
